@@ -31,6 +31,23 @@ def to_wire(v):
     raise TypeError('no wire form for %r' % (v,))
 
 
+def to_py_shared(w, _pool=None):
+    """like to_py, but equal list / dict sub-values are ONE object (the way a caller writes `not_set = [False, None]` once and
+    uses it under two keys of a filter): what a filter means must not depend on that"""
+    import json
+    pool = {} if _pool is None else _pool
+    if isinstance(w, dict) and ('l' in w or 'd' in w):
+        key = json.dumps(w, sort_keys=True)
+        if key in pool:
+            return pool[key]
+        v = [to_py_shared(x, pool) for x in w['l']] if 'l' in w else {k: to_py_shared(x, pool) for k, x in w['d']}
+        pool[key] = v
+        return v
+    if isinstance(w, dict) and 't' in w:
+        return tuple(to_py_shared(x, pool) for x in w['t'])
+    return to_py(w)
+
+
 def to_py(w):
     if w is None or isinstance(w, bool):
         return w
